@@ -23,7 +23,7 @@ PROPS["C08"] = dict(
         "Zrnt.Proofs.C08.reload_equiv",
         "Zrnt.Proofs.C08.ctx_reads_in_range",
     ],
-    modes=[dict(name="c08", stateful=True, max_shrinks=3)],
+    modes=[dict(name="c08", stateful=True, max_shrinks=3, tie_lines=[r"^genfail\b", r"^genesisfail\b"])],
     custom=short_samples("c08"),
     regen=[],
     components=["ctxcheck", "chain", "flat"],
